@@ -1,5 +1,6 @@
 import NflowsModel.Core.Driver
 import NflowsModel.Core.Structure
+import NflowsModel.Core.Dual
 /-! Core/Ops/C01 — driver operations for transform-level correspondences (C01, C02, C07, C12, C16, C17, C19):
 `nonlin`, `cdf`, `coupling`, `ar`.
 
@@ -33,6 +34,8 @@ def runC01 (o : XOps α) (r : Req) : Option Resp :=
   | _ => none
 
 def handleC01 (r : Req) : Option Resp :=
-  if r.prec == "f32" then runC01 float32X r else runC01 floatX r
+  if r.prec == "f32" then runC01 float32X r
+  else if r.prec == "d64" then runC01 (dualX floatX) r
+  else runC01 floatX r
 
 end NF
